@@ -29,6 +29,7 @@ type Config struct {
 	StoreHook bool // storage calls are crash points
 	Asym      bool // one-directional partitions are in the alphabet
 	Puppets   bool // only n0 is a real node; the others are played by the harness
+	Cold      bool // spare nodes are constructed but neither bootstrapped nor started
 }
 
 type Budget struct {
@@ -103,6 +104,7 @@ type ClientOp struct {
 	Node     int
 	Data     string
 	Target   int  // member ops: subject node
+	TargetID string
 	Voter    bool // add
 	OpFut    raft.Future[raft.OperationResponse]
 	CfFut    raft.Future[raft.Configuration]
@@ -135,6 +137,7 @@ type Cluster struct {
 	// StorageSeen is called for every storage hook (monitors).
 	StorageSeen func(node int, op string, phase int)
 	Problems    []string // harness-level anomalies (panics in tasks ...)
+	API         []*APIResult
 	views       []*raft.VerifView
 	nextWrite   int
 }
@@ -201,6 +204,9 @@ func New(cfg Config, b Budget) *Cluster {
 			if err := n.R.Bootstrap(m); err != nil {
 				panic("INFRA: bootstrap: " + err.Error())
 			}
+		}
+		if cfg.Cold && i >= cfg.Voters {
+			continue
 		}
 		c.start(n)
 	}
@@ -383,6 +389,28 @@ func (c *Cluster) Teardown() {
 
 // Apply performs one environment event and runs the system to quiescence.
 func (c *Cluster) Apply(e Event) error {
+	if err := c.Inject1(e); err != nil {
+		return err
+	}
+	c.settle()
+	return nil
+}
+
+// ApplyPar injects several events at once and then runs to quiescence: their
+// consequences are concurrent (SCHED engine).
+func (c *Cluster) ApplyPar(es []Event) error {
+	for _, e := range es {
+		if err := c.Inject1(e); err != nil {
+			return err
+		}
+	}
+	c.settle()
+	return nil
+}
+
+// Inject1 performs the immediate part of an event without running the
+// scheduler (except for "rt", which is two steps by definition).
+func (c *Cluster) Inject1(e Event) error {
 	if e.D {
 		c.B.Deviations--
 	}
@@ -591,10 +619,24 @@ func (c *Cluster) Apply(e Event) error {
 		if err := c.applyPuppet(e); err != nil {
 			return err
 		}
+	case "api":
+		if err := c.applyAPI(e); err != nil {
+			return err
+		}
+	case "stop", "statusq":
+		n := c.Nodes[e.N]
+		if !n.Alive {
+			return fmt.Errorf("%s: n%d is down", e.K, e.N)
+		}
+		r := n.R
+		if e.K == "stop" {
+			vsched.Spawn(e.N, "client:stop", func() { r.Stop() })
+		} else {
+			vsched.Spawn(e.N, "client:status", func() { _ = r.Status(); _ = r.Configuration() })
+		}
 	default:
 		return fmt.Errorf("unknown event kind %q", e.K)
 	}
-	c.settle()
 	return nil
 }
 
